@@ -68,31 +68,35 @@ NUM_BOUNDS = ["9223372036854775807", "9223372036854775808", "1844674407370955161
 def c14_families(tier):
     ex = []   # exhaustive
     if tier == "thorough":
-        gen = [BS, DQ, SQ, 48, 55, 56, 97, 110, 120, 117, 43, 103, LF, NUL, EACUTE, RAW80]
+        gen = [BS, DQ, SQ, 48, 55, 56, 97, 120, 117, 43, 103, NUL, EACUTE]
         ex.append(fam("gen", "str", DQ, [], gen, 5))
-        ex.append(fam("esc", "str", DQ, [], [BS, DQ, 48, 52, 55, 97, 120, 117, 43, 103], 6))
+        ex.append(fam("esc", "str", DQ, [], [BS, DQ, 48, 55, 97, 120, 117, 43], 6))
+        ex.append(fam("rawb", "str", DQ, [], [BS, DQ, 97, 120, RAW80, RAWFF], 4))
         ex.append(fam("hex", "str", DQ, S("\\x"), [DQ, BS, 48, 52, 56, 70, 102, 103, 43, 45, EACUTE, 120], 6))
         ex.append(fam("oct", "str", DQ, [BS], [48, 51, 52, 55, 56, 97, DQ, BS], 6))
         ex.append(fam("u", "str", DQ, S("\\u"), [48, 52, 70, 101, 103, 43, 45, DQ, BS], 7))
-        ex.append(fam("U", "str", DQ, S("\\U"), [48, 49, 70, 43, 103], 10))
-        ex.append(fam("U9", "str", DQ, S("\\U000"), [48, 49, 70, DQ, BS, 101], 11))
+        ex.append(fam("U", "str", DQ, S("\\U"), [48, 49, 70, 43], 10))
+        ex.append(fam("Ug", "str", DQ, S("\\U00"), [48, 49, 70, 103, 45, DQ], 10))
+        ex.append(fam("U9", "str", DQ, S("\\U0000"), [48, 70, DQ, BS, 103], 12))
         ex.append(fam("X", "str", DQ, S("\\X"), [DQ, BS, 103, 43, 88, EACUTE], 4))
         ex.append(fam("sq", "str", SQ, [], [BS, DQ, SQ, 97, 48, 120, 43], 5))
-        ex.append(fam("ws", "str", DQ, [], [BS, DQ, 9, 13, 32, 97, 63, 116], 4))
-        ex.append(fam("num", "num", 0, [], [48, 49, 50, 53, 55, 57, 97, 101, 69, 120, 46, 43, 45], 5))
+        ex.append(fam("ws", "str", DQ, [], [BS, DQ, SQ, 9, 10, 13, 32, 97, 63, 116], 4))
+        ex.append(fam("num", "num", 0, [], [48, 49, 50, 53, 55, 57, 101, 120, 46, 43, 45], 5))
+        ex.append(fam("numa", "num", 0, [], [48, 49, 57, 97, 102, 69, 88, 120, 46, 45], 4))
         ex.append(fam("numx", "num", 0, S("0"), [48, 55, 57, 102, 70, 120, 88, 46, 101], 6))
     else:
-        gen = [BS, DQ, 48, 55, 56, 97, 120, 117, 43, 103, LF, NUL, EACUTE]
+        gen = [BS, DQ, SQ, 48, 55, 56, 97, 120, 117, 43, 103, LF, NUL, EACUTE]
         ex.append(fam("gen", "str", DQ, [], gen, 4))
         ex.append(fam("rawb", "str", DQ, [], [BS, DQ, 97, RAW80], 3))
         ex.append(fam("hex", "str", DQ, S("\\x"), [DQ, BS, 48, 70, 102, 103, 43, 45, EACUTE], 5))
         ex.append(fam("oct", "str", DQ, [BS], [48, 51, 52, 55, 56, DQ], 5))
-        ex.append(fam("u", "str", DQ, S("\\u"), [48, 70, 103, 43, DQ], 7))
-        for i, p in enumerate(["\\U000", "\\U001", "\\U00+", "\\U+00", "\\U100"]):
+        ex.append(fam("u", "str", DQ, S("\\u"), [48, 70, 103, 43, 45, DQ], 7))
+        for i, p in enumerate(["\\U000", "\\U001", "\\U00+", "\\U+00", "\\U0-0", "\\U100", "\\UF00"]):
             ex.append(fam("U%d" % i, "str", DQ, S(p), [48, 70, 43, 103], 10))
         ex.append(fam("X", "str", DQ, S("\\X"), [DQ, BS, 103, 43], 4))
         ex.append(fam("sq", "str", SQ, [], [BS, DQ, SQ, 97, 48, 32], 4))
-        ex.append(fam("num", "num", 0, [], [48, 49, 53, 55, 57, 97, 101, 120, 46, 43, 45], 4))
+        ex.append(fam("num", "num", 0, [], [48, 49, 50, 53, 55, 57, 97, 101, 120, 46, 43, 45], 4))
+        ex.append(fam("num5", "num", 0, [], [48, 49, 53, 101, 46, 45], 5))
     # every class of the alphabet at least once in an exhaustive family, in both tiers
     simple = S("abfnrtv\\'\"?") + S("ezN9") + [EACUTE, 32]
     ex.append(fam("simple", "str", DQ, [BS], simple, 3))
@@ -199,7 +203,7 @@ def run_c14(pid, tier, replay):
                  "alphabet": [text_of({"text": c}) for c in f["chunks"]], "maxlen": f["maxlen"]} for f in ex],
                 "cases": n_exh, "tlc_wall_s": round(r.wall, 1)})
             mod = write_mc(wd, "sim", sim)
-            nsim = 6000 if tier == "thorough" else 300
+            nsim = 6000 if tier == "thorough" else 600
             r = vf.tlc(mod, mod + ".cfg", wd, workers=1, simulate=nsim, depth=14, tseed=vf.seed(), case_sink=sink,
                        timeout=900 if tier == "quick" else 3000)
             if r.violated:
@@ -422,6 +426,7 @@ def run_c26(pid, tier, replay):
             raise vf.MachineryError("no %s texts recorded" % need)
     todo = recs
     rejected = 0
+    rej_by_src = collections.Counter()
     tstates = 0
     while todo:
         idx, r = validate_trace(wd, "trace", [(b, t) for b, t, _s in todo])
@@ -430,18 +435,26 @@ def run_c26(pid, tier, replay):
             break
         b, t, src = todo[idx]
         rejected += 1
+        rej_by_src[src] += 1
         verdict.disagree("trace:" + src, {"b": list(b), "esc": None, "real_text": list(t)},
                          "text produced by the real code (%s) does not read back to the bytes under Escape.tla: %r"
                          % (src, bytes(t)))
         tstates += idx
-        if rejected >= 20:
-            break
-        todo = todo[idx + 1:]
-    # binding self-test: a corrupted record must be rejected by TLC
+        # go on behind the rejected record; a source that was rejected three times is not examined further
+        todo = [x for x in todo[idx + 1:] if rej_by_src[x[2]] < 3]
+    # binding self-test: TLC must reject a corrupted record (and exactly that one).  The records are the
+    # specification's own (b, Escape(b)) pairs, so the test does not depend on the code under test.
     if not replay:
-        good = [(b, t) for b, t, _s in recs[:50] if len(t) > 0]
+        good = []
+        with open(casefile) as fh:
+            for line in fh:
+                o = json.loads(line)
+                if len(o["b"]) >= 2:
+                    good.append((o["b"], o["esc"]))
+                if len(good) >= 40:
+                    break
         cb, ct = good[-1]
-        bad = good[:-1] + [(cb, tuple(list(ct) + [65]))] + good[:3]
+        bad = good[:-1] + [(cb, list(ct) + [65])] + good[:3]
         idx, _r = validate_trace(wd, "trace_selftest", bad)
         if idx != len(good) - 1:
             raise vf.MachineryError("binding self-test failed: corrupted trace record not rejected at %d (got %r)"
